@@ -287,7 +287,7 @@ class Writer:
 
     # ------------------------------------------------------------------ elements
     def note_setting(self, text):
-        return self.kw('note:') + self.sp() + self.lit(text, note=True)
+        return self.kw('note:') + self.gap('colon:note') + self.lit(text, note=True)
 
     def note_body(self, ctx, text, allow_block=True):
         form = self.k['note_pos']
@@ -375,7 +375,7 @@ class Writer:
         if c.autoinc:
             items.append(self.kw('increment'))
         if c.default is not None:
-            items.append(self.kw('default:') + self.sp() + self.default_lit(c.default))
+            items.append(self.kw('default:') + self.gap('colon:default') + self.default_lit(c.default))
         if c.note is not None:
             items.append(self.note_setting(c.note))
         refs = [self.inline_ref(doc, r) for r in c.inline_refs]
@@ -407,13 +407,13 @@ class Writer:
             text = '(' + (',' + self.sp()).join(subj) + ')'
         items = []
         if i.name is not None:
-            items.append(self.kw('name:') + self.sp() + self.lit(i.name))
+            items.append(self.kw('name:') + self.gap('colon:ixname') + self.lit(i.name))
         if i.pk:
             items.append(self.kw('pk'))
         if i.unique:
             items.append(self.kw('unique'))
         if i.type is not None:
-            items.append(self.kw('type:') + self.sp() + (self.fault('lit:indextype') or self.kw(i.type)))
+            items.append(self.kw('type:') + self.gap('colon:ixtype') + (self.fault('lit:indextype') or self.kw(i.type)))
         if i.note is not None:
             items.append(self.note_setting(i.note))
         if self.k['settings_order'] == 'shuffle':
@@ -434,7 +434,7 @@ class Writer:
             note_pos = self.rng.choice(['settings', 'colon', 'block'])
         sett = []
         if t.header_color:
-            sett.append(self.kw('headercolor:') + self.sp() + (self.fault('lit:color') or t.header_color))
+            sett.append(self.kw('headercolor:') + self.gap('colon:headercolor') + (self.fault('lit:color') or t.header_color))
         if t.note is not None and note_pos == 'settings':
             sett.append(self.note_setting(t.note))
         if self.k['settings_order'] == 'shuffle':
@@ -520,9 +520,9 @@ class Writer:
                 + self.endpoint(doc, r.t2, r.cols2))
         sett = []
         if r.on_update is not None:
-            sett.append(self.kw('update:') + self.sp() + (self.fault('lit:action') or self.kw(r.on_update)))
+            sett.append(self.kw('update:') + self.gap('colon:update') + (self.fault('lit:action') or self.kw(r.on_update)))
         if r.on_delete is not None:
-            sett.append(self.kw('delete:') + self.sp() + (self.fault('lit:action') or self.kw(r.on_delete)))
+            sett.append(self.kw('delete:') + self.gap('colon:delete') + (self.fault('lit:action') or self.kw(r.on_delete)))
         if self.k['settings_order'] == 'shuffle':
             self.rng.shuffle(sett)
         if sett:
@@ -547,7 +547,7 @@ class Writer:
             note_pos = self.rng.choice(['settings', 'colon', 'block'])
         sett = []
         if g.color:
-            sett.append(self.kw('color:') + self.sp() + (self.fault('lit:color') or g.color))
+            sett.append(self.kw('color:') + self.gap('colon:color') + (self.fault('lit:color') or g.color))
         if g.note is not None and note_pos == 'settings':
             sett.append(self.note_setting(g.note))
         if self.k['settings_order'] == 'shuffle':
